@@ -519,6 +519,10 @@ impl TaskEmitter {
             kind,
         };
         *seq += 1;
+        #[cfg(rip_verif)]
+        rip_kernel::verif::point("emit.numbered", || {
+            serde_json::json!({"stream": event.stream_id(), "sk": event.stream_kind(), "seq": event.seq})
+        });
 
         let mut guard = self.events.lock().await;
         guard.push(event.clone());
